@@ -179,7 +179,11 @@ func realHistory(rng *lib.Rng, tbl *slotTable, st *lib.Stats, sh *lib.Shards, ru
 			for _, in := range g.ins {
 				used[in] = true
 			}
-			blk = append(blk, g.tx.Transaction)
+			cp := redecode(g.tx.Transaction) // as received from a peer
+			if cp == nil {
+				panic("harness: signed transfer does not round-trip")
+			}
+			blk = append(blk, cp)
 			ids = append(ids, g.id)
 		}
 		b, err := f.BuildBlock(tip, blk, fixture.BlockOpt{Salt: uint64(i)})
